@@ -25,6 +25,7 @@ def tied_rows(m, dense):
     return out
 
 class C18(Prop):
+    layouts = True
     pid = "C18"
     sources = ["socialchoicekit/profile_utils.py", "socialchoicekit/data_generation.py", "socialchoicekit/utils.py"]
     groups = {"conv": Group("conv", REQ, "RunProf.conv_case", "RunProf.chk_conv"),
@@ -110,7 +111,7 @@ class C18(Prop):
         import socialchoicekit.profile_utils as PU
         import socialchoicekit.data_generation as DG
         op = case["op"]
-        A = np.array([[np.nan if x is None else float(x) for x in row] for row in case["M"]], dtype=float)
+        A = lay(np.array([[np.nan if x is None else float(x) for x in row] for row in case["M"]], dtype=float), case.get("layout"))
         A0 = A.copy()
         draws = []
         ou, on = np.random.uniform, np.random.normal
@@ -138,7 +139,7 @@ class C18(Prop):
                 except Exception as e:  # noqa
                     acc = "err:" + type(e).__name__
                 return dict(out=o1, draws=d1, again=o2, accepted=acc)
-            V = np.array(case["V"], dtype=float)
+            V = lay(np.array(case["V"], dtype=float), case.get("layout"))
             return dict(verdict=bool(PU.is_consistent_valuation_profile(PU.ValuationProfile.of(V), PU.StrictCompleteProfile.of(A.astype(int)))))
         np.random.uniform, np.random.normal = uni, nor
         try:
